@@ -8,7 +8,7 @@ import warnings
 from fractions import Fraction
 
 import geom
-from common import CORPUS_DIR, call, frac
+from common import CORPUS_DIR, call, frac, rat
 
 RULE = ("obstacles of every role (static; dynamic with trajectory / set-based / no prediction; phantom; environment) x shapes "
         "(rectangle, circle, polygon, shape group; centred and off-centre) x state classes (KS, ST, Initial, PM with vx/vy in all "
@@ -21,11 +21,12 @@ ASSUMPTIONS = ["placement geometry (rotate about the shape's own centre, then tr
                "well-formed trajectories (state i carries time step t0+i) as the property's horizon notion presupposes",
                "enclosure for uncertain states is sampled (40 poses x shape vertices), a test not a theorem; the proved part is "
                "C04_extent_le_small/_max, C04_enclosure_box/_long"]
-EXTRA_MODULES = ["CRProps.T17", "CRProps.T04"]      # translator tie: Gen.Src (regenerated from /repo every run) = hand model
+EXTRA_MODULES = ["CRProps.T17", "CRProps.T04", "CRProps.P04"]      # translator tie: Gen.Src (regenerated from /repo every run) = hand model
 REQUIRED_BUCKETS = ["role/static", "role/dynamic-traj", "role/dynamic-set", "role/dynamic-none", "role/phantom", "role/environment",
                     "state/PMState", "t/before", "t/initial", "t/inside", "t/after", "uncertain/orientation", "uncertain/position",
                     "scenario/role-filter", "scenario/position-interval", "shape/group", "shape/poly",
-                    "history/trajectory-replaced", "history/update-initial-state"]
+                    "history/trajectory-replaced", "history/update-initial-state",
+                    "place/rect", "place/circ", "place/poly", "place/group"]
 
 TOL = 1e-9
 
@@ -282,6 +283,34 @@ def expected_placement(spec, pos, th):
     return out
 
 
+def wire_shape(spec):
+    """Shape spec with exact rationals for the driver."""
+    k = spec["k"]
+    if k == "rect":
+        return {"k": "rect", "l": rat(spec["l"]), "w": rat(spec["w"]), "c": [rat(spec["c"][0]), rat(spec["c"][1])], "o": rat(spec["o"])}
+    if k == "circ":
+        return {"k": "circ", "r": rat(spec["r"]), "c": [rat(spec["c"][0]), rat(spec["c"][1])]}
+    if k == "poly":
+        return {"k": "poly", "v": [[rat(x), rat(y)] for x, y in spec["v"]]}
+    return {"k": "group", "s": [wire_shape(x) for x in spec["s"]]}
+
+
+def model_points(m):
+    """The model's placed shape in the form of shape_points()."""
+    from common import unrat
+    k = m["k"]
+    if k == "rect":
+        return [("rect", float(unrat(m["l"])), float(unrat(m["w"])), float(unrat(m["c"][0])), float(unrat(m["c"][1])), float(unrat(m["o"])))]
+    if k == "circ":
+        return [("circ", float(unrat(m["r"])), float(unrat(m["c"][0])), float(unrat(m["c"][1])))]
+    if k == "poly":
+        return [("poly",) + tuple(float(unrat(x)) for v in m["v"] for x in v)]
+    out = []
+    for x in m["s"]:
+        out += model_points(x)
+    return out
+
+
 def ring_equal(a, b):
     """Vertex rings equal up to the closing vertex, the starting vertex and the direction (the library re-orients rings)."""
     def strip(r):
@@ -436,6 +465,13 @@ def run_obstacle(ctx, case):
                     ctx.fail("C04/environment.occupancy_at_time/wrong-region", f"t={t}", sub)
             else:
                 pos, th = pose_of(o, want_pose)
+                # correspondence with the placement model (CR.Place.place; cos/sin are parameters evaluated here)
+                mp = ctx.driver.ask("C04", "place", {"c": rat(math.cos(th)), "s": rat(math.sin(th)), "a": rat(th), "tau": rat(2.0 * math.pi),
+                                                      "t": [rat(pos[0]), rat(pos[1])], "shape": wire_shape(o["shape"])})
+                okm = same_geometry(shape_points(occ.shape), model_points(mp))
+                ctx.compare(sub, "placement within 1e-9" if okm else shape_points(occ.shape),
+                            "placement within 1e-9" if okm else model_points(mp), "occupancy geometry vs CR.Place.place")
+                ctx.tag("place/" + o["shape"]["k"])
                 if not same_geometry(shape_points(occ.shape), expected_placement(o["shape"], pos, th)):
                     ctx.fail(f"C04/{k}.occupancy_at_time/wrong-placement",
                              f"t={t}: occupancy {shape_points(occ.shape)} is not the shape placed at pos={pos}, heading={th}", sub)
